@@ -1054,19 +1054,19 @@ func hasMethods(ms *types.MethodSet, names ...string) bool {
 // key: qualified function | construct (types.ExprString). One line of reason each.
 // keys: function | construct with local variables replaced by `$<type>` (normLocals): renaming a local keeps the entry
 var justifiedOBL = map[string]string{
-	"analysis.fetchStructComments|$types.Object.Type().(*types.Named)":                  "scope is the TypeName looked up by the name of a *types.Named declared in that package: a defined (non-alias) type name, whose Type() is *types.Named",
-	"analysis.(*Enum).Underlying|$*analysis.Enum.Type().Underlying().(*types.Basic)":    "an Enum is only created for the type of a typed constant (fetchPkgEnums); the Go spec allows constants of basic underlying types only",
-	"analysis/sql.(Array).Name|$sql.Array.A.Elem.(*an.Basic)":                           "constructor invariant: newType builds sql.Array only when Elem is *an.Basic or an integer *an.Enum (checked by side condition SIDE-sqlArray); the enum case is tested first",
-	"generator/go/gounions.jsonForArray|$*analysis.Named.Underlying.(*an.Array)":        "caller-guarded: only called from codeForNamed inside `case *an.Array` with Elem.(*an.Union) tested (side condition SIDE-callers)",
-	"generator/go/gounions.jsonForArray|$*analysis.Array.Elem.(*an.Union)":              "caller-guarded: see above",
-	"generator/go/gounions.jsonForMap|$*analysis.Named.Underlying.(*an.Map)":            "caller-guarded: only called from codeForNamed inside `case *an.Map` with Elem.(*an.Union) tested (side condition SIDE-callers)",
-	"generator/go/gounions.jsonForMap|$*analysis.Map.Elem.(*an.Union)":                  "caller-guarded: see above",
-	"analysis/httpapi.parseCallWithString|$*types.Tuple.At(0)":                          "a call expression used as the right-hand side of an assignment has at least one result; go/types gives it a Tuple type only when it has two or more",
-	"analysis/sql.(Composite).SQLType|$sql.Composite.t.Fields[$int]":                    "caller-guarded: the only caller (compositeDecl) passes the range index over the same struct's Fields (side condition SIDE-callers)",
-	"generator/go/randdata.(context).codeForEnum|strings.Fields($string)[1]":            "types.ObjectString of a *types.Const is `const <name> <type>`: at least three fields",
-	"generator/go/sqlcrud.(context).generatePrimaryTable|$sql.Table.Columns[$int]":      "caller-guarded: generateTable calls generatePrimaryTable only when ta.Primary() >= 0, and Primary returns an index of Columns (side condition SIDE-callers)",
-	"analysis.LocalName|$analysis.Type.Type().(*types.Named)":                           "caller-guarded: every call site carries an OBL-PRE obligation that its argument is a named-kind node",
-	"analysis/httpapi.resolveVarType|resolveIdentifier($*ast.Ident, $*types.Info).Type": "every identifier used as an operand in a type-checked file is recorded in Info.Uses or Info.Defs; arg is an operand of a call in such a file",
+	"analysis.fetchStructComments|$types.Object.Type().(*types.Named)":                "scope is the TypeName looked up by the name of a *types.Named declared in that package: a defined (non-alias) type name, whose Type() is *types.Named",
+	"analysis.(*Enum).Underlying|$analysis.Enum.Type().Underlying().(*types.Basic)":   "an Enum is only created for the type of a typed constant (fetchPkgEnums); the Go spec allows constants of basic underlying types only",
+	"analysis/sql.(Array).Name|$sql.Array.A.Elem.(*an.Basic)":                         "constructor invariant: newType builds sql.Array only when Elem is *an.Basic or an integer *an.Enum (checked by side condition SIDE-sqlArray); the enum case is tested first",
+	"generator/go/gounions.jsonForArray|$analysis.Named.Underlying.(*an.Array)":       "caller-guarded: only called from codeForNamed inside `case *an.Array` with Elem.(*an.Union) tested (side condition SIDE-callers)",
+	"generator/go/gounions.jsonForArray|$analysis.Array.Elem.(*an.Union)":             "caller-guarded: see above",
+	"generator/go/gounions.jsonForMap|$analysis.Named.Underlying.(*an.Map)":           "caller-guarded: only called from codeForNamed inside `case *an.Map` with Elem.(*an.Union) tested (side condition SIDE-callers)",
+	"generator/go/gounions.jsonForMap|$analysis.Map.Elem.(*an.Union)":                 "caller-guarded: see above",
+	"analysis/httpapi.parseCallWithString|$types.Tuple.At(0)":                         "a call expression used as the right-hand side of an assignment has at least one result; go/types gives it a Tuple type only when it has two or more",
+	"analysis/sql.(Composite).SQLType|$sql.Composite.t.Fields[$int]":                  "caller-guarded: the only caller (compositeDecl) passes the range index over the same struct's Fields (side condition SIDE-callers)",
+	"generator/go/randdata.(context).codeForEnum|strings.Fields($string)[1]":          "types.ObjectString of a *types.Const is `const <name> <type>`: at least three fields",
+	"generator/go/sqlcrud.(context).generatePrimaryTable|$sql.Table.Columns[$int]":    "caller-guarded: generateTable calls generatePrimaryTable only when ta.Primary() >= 0, and Primary returns an index of Columns (side condition SIDE-callers)",
+	"analysis.LocalName|$analysis.Type.Type().(*types.Named)":                         "caller-guarded: every call site carries an OBL-PRE obligation that its argument is a named-kind node",
+	"analysis/httpapi.resolveVarType|resolveIdentifier($ast.Ident, $types.Info).Type": "every identifier used as an operand in a type-checked file is recorded in Info.Uses or Info.Defs; arg is an operand of a call in such a file",
 }
 
 // runNilMap (OBL-NILMAP): a store `x.f[k] = v` into a map-typed struct field requires that every way of
